@@ -239,7 +239,7 @@ def run_replay(o, cfg, repo, work, seed):
         return {"ran": False, "found": False, "output": "unit has no replay harness"}
     files = [os.path.join(unit_dir(o["unit"]), f) for f in rp["files"]]
     try:
-        scratch, _ = kani.prepare(repo, files)
+        scratch, _ = kani.prepare(repo, files, for_tests=True)
     except Exception as e:
         return {"ran": False, "found": False, "output": "replay setup failed: %s" % e}
     try:
